@@ -137,7 +137,7 @@ def build(targets: list[str] | None = None) -> BuildResult:
                 r.gen_msg += f"gen/{g} failed (rc={rc}):\n{out[-2000:]}\n"
         # translators whose output only some proofs depend on: when one fails closed its output is replaced by a file that
         # does not compile, so exactly the obligations resting on it stop checking (and say why)
-        for g, outv in (("commands.py", "Gen/Commands.v"), ("exprs.py", "Gen/Exprs.v"), ("screen.py", "Gen/ScreenOps.v"), ("server.py", "Gen/ParseServer.v"), ("server.py decodekey", "Gen/DecodeKey.v"), ("recorder.py", "Gen/RecorderOps.v"), ("expect.py", "Gen/ExpectOps.v")):
+        for g, outv in (("commands.py", "Gen/Commands.v"), ("exprs.py", "Gen/Exprs.v"), ("screen.py", "Gen/ScreenOps.v"), ("server.py", "Gen/ParseServer.v"), ("server.py decodekey", "Gen/DecodeKey.v"), ("recorder.py", "Gen/RecorderOps.v"), ("expect.py", "Gen/ExpectOps.v"), ("dispatch.py", "Gen/RecorderDispatch.v")):
             rc, out = _run([PY, os.path.join(VERIF, "gen", g.split()[0])] + g.split()[1:], env=env, timeout=120)
             if rc != 0:
                 r.scoped_gen[outv] = f"gen/{g} failed closed: {out.strip().splitlines()[-1] if out.strip() else rc}"
